@@ -351,3 +351,29 @@ def run_one(ctx: Any, seed: int, tier: str, replay: Optional[dict] = None) -> di
         "sim_time": 0,
         "samples": samples,
     }
+
+
+def shrink_candidates(rp: dict):
+    import copy
+
+    from vsim.shrink import list_candidates
+
+    for qs in list_candidates(rp["queries"]):
+        if qs:
+            r = copy.deepcopy(rp)
+            r["queries"] = qs
+            yield "drop queries", r
+    ign = sorted(rp["world"]["ignore"])
+    for keep in list_candidates(ign):
+        r = copy.deepcopy(rp)
+        for d in set(ign) - set(keep):
+            how = r["world"]["ignore"].pop(d)["how"]
+            r["world"]["files"].pop(d + "/" + how, None)
+        yield "drop ignore files", r
+    plain = sorted(f for f in rp["world"]["files"] if not os.path.basename(f).startswith(".") and not f.endswith(".toml"))
+    for keep in list_candidates(plain):
+        r = copy.deepcopy(rp)
+        for f in set(plain) - set(keep):
+            r["world"]["files"].pop(f, None)
+        if all(q["target"] in r["world"]["files"] or q["target"] in r["world"]["dirs"] for q in r["queries"]):
+            yield "drop files", r
